@@ -19,6 +19,7 @@ pub enum NetworkCostRate {
         lookup: HashMap<EdgeId, Cost>,
     },
     EdgeEdgeLookup {
+        #[serde(with = "edge_pair_lookup")]
         lookup: HashMap<(EdgeId, EdgeId), Cost>,
     },
     Combined(Vec<NetworkCostRate>),
@@ -89,5 +90,43 @@ impl NetworkCostRate {
                 Ok(cost)
             }
         }
+    }
+}
+
+/// JSON objects need string keys, so an edge pair is written as "<previous edge>,<next edge>".
+mod edge_pair_lookup {
+    use super::{Cost, EdgeId};
+    use serde::{de::Error, Deserialize, Deserializer, Serialize, Serializer};
+    use std::collections::HashMap;
+
+    pub fn serialize<S: Serializer>(
+        lookup: &HashMap<(EdgeId, EdgeId), Cost>,
+        serializer: S,
+    ) -> Result<S::Ok, S::Error> {
+        let as_strings: HashMap<String, Cost> = lookup
+            .iter()
+            .map(|((prev, next), cost)| (format!("{},{}", prev.0, next.0), *cost))
+            .collect();
+        as_strings.serialize(serializer)
+    }
+
+    pub fn deserialize<'de, D: Deserializer<'de>>(
+        deserializer: D,
+    ) -> Result<HashMap<(EdgeId, EdgeId), Cost>, D::Error> {
+        let as_strings: HashMap<String, Cost> = HashMap::deserialize(deserializer)?;
+        as_strings
+            .into_iter()
+            .map(|(key, cost)| {
+                let (prev, next) = key.split_once(',').ok_or_else(|| {
+                    D::Error::custom(format!(
+                        "expected an edge pair key '<prev>,<next>', found '{}'",
+                        key
+                    ))
+                })?;
+                let prev = prev.trim().parse::<usize>().map_err(D::Error::custom)?;
+                let next = next.trim().parse::<usize>().map_err(D::Error::custom)?;
+                Ok(((EdgeId(prev), EdgeId(next)), cost))
+            })
+            .collect()
     }
 }
